@@ -180,13 +180,17 @@ int aws_format_standard_log_line(struct aws_logging_standard_formatting_data *fo
     /*
      * End with a newline.
      */
-    int newline_written_count =
-        snprintf(formatting_data->log_line_buffer + current_index, formatting_data->total_length - current_index, "\n");
-    if (newline_written_count < 0) {
+    if (current_index >= formatting_data->total_length) {
         return aws_raise_error(AWS_ERROR_UNKNOWN); /* we saved space, so this would be crazy */
     }
 
-    formatting_data->amount_written = current_index + newline_written_count;
+    /* Store the newline directly: snprintf() would also need room for its terminator, which a 1-byte buffer lacks */
+    formatting_data->log_line_buffer[current_index] = '\n';
+    if (current_index + 1 < formatting_data->total_length) {
+        formatting_data->log_line_buffer[current_index + 1] = '\0';
+    }
+
+    formatting_data->amount_written = current_index + 1;
 
     return AWS_OP_SUCCESS;
 }
